@@ -154,11 +154,18 @@ static std::string snapshot_params() {
 
 // ------------------------------------------------------------------------------------------------ C15
 static int mode_c15(const Caps& D, int tier) {
-  for (auto& sol : D.order) {
+  for (int ctx = 0; ctx < 3; ctx++) for (auto& sol : D.order) {
     fflush(OUT);
     pid_t pid = fork();
     if (pid == 0) {
-      capture([&] { masa_init<double>("s", sol); masa_init<LD>("s", sol); });
+      // registry context in which the sweep runs (same in both registries): 0 fresh; 1 a second handle holding a solution that provides
+      // many evaluators is re-initialised between two selections of s; 2 the 4-d solution registered first, selection moved away and back
+      capture([&] { auto ctx_run = [&](auto tag) { typedef decltype(tag) S;
+        if (ctx == 0) masa_init<S>("s", sol);
+        else if (ctx == 1) { masa_init<S>("s", sol); masa_init<S>("y", "heateq_1d_steady_const"); masa_select_mms<S>("s"); masa_init<S>("y", "euler_3d"); masa_select_mms<S>("s"); }
+        else { masa_init<S>("y", "navierstokes_4d_compressible_powerlaw"); masa_init<S>("s", sol); masa_select_mms<S>("y"); masa_select_mms<S>("s"); } };
+        ctx_run((double)0); ctx_run((LD)0); });
+      { std::string a, b; masa_get_name<double>(&a); masa_get_name<LD>(&b); if (a != sol || b != sol) viol("C15", sol + ": context " + std::to_string(ctx) + " does not leave this solution selected (get_name: " + a + " / " + b + ")", "\"solution\":\"" + sol + "\",\"context\":" + std::to_string(ctx)); }
       std::string snap0 = snapshot_params();
       long st = 0, tr = 0, va = 0;
       for (int k = 0; k < API_N; k++) {
@@ -172,13 +179,13 @@ static int mode_c15(const Caps& D, int tier) {
           bool okd = vals_d[t] == (double)-1.33, okl = vals_l[t] == (LD)-1.33;
           bool msgd = outs[t].find("MASA ERROR") != std::string::npos, msgl = o2.find("MASA ERROR") != std::string::npos;  // also matches "SMASA ERROR"
           va += 2;
-          if (!okd || !msgd) { char b[512]; snprintf(b, sizeof b, "\"solution\":\"%s\",\"fn\":\"%s\",\"sig\":\"%s\",\"scalar\":\"d\",\"tuple\":%d,\"value\":\"%.17g\",\"printed_error\":%s", sol.c_str(), e.name, e.sig, t, vals_d[t], msgd ? "true" : "false"); viol("C15", sol + ": masa_eval_" + e.name + "<double>(" + e.sig + ") is not provided but " + (okd ? "printed no MASA ERROR line" : "returned a value other than -1.33"), b); }
-          if (!okl || !msgl) { char b[512]; snprintf(b, sizeof b, "\"solution\":\"%s\",\"fn\":\"%s\",\"sig\":\"%s\",\"scalar\":\"ld\",\"tuple\":%d,\"value\":\"%.21Lg\",\"printed_error\":%s", sol.c_str(), e.name, e.sig, t, vals_l[t], msgl ? "true" : "false"); viol("C15", sol + ": masa_eval_" + e.name + "<long double>(" + e.sig + ") is not provided but " + (okl ? "printed no MASA ERROR line" : "returned a value other than -1.33"), b); }
+          if (!okd || !msgd) { char b[512]; snprintf(b, sizeof b, "\"solution\":\"%s\",\"context\":%d,\"fn\":\"%s\",\"sig\":\"%s\",\"scalar\":\"d\",\"tuple\":%d,\"value\":\"%.17g\",\"printed_error\":%s", sol.c_str(), ctx, e.name, e.sig, t, vals_d[t], msgd ? "true" : "false"); viol("C15", sol + " [context " + std::to_string(ctx) + "]: masa_eval_" + e.name + "<double>(" + e.sig + ") is not provided but " + (okd ? "printed no MASA ERROR line" : "returned a value other than -1.33"), b); }
+          if (!okl || !msgl) { char b[512]; snprintf(b, sizeof b, "\"solution\":\"%s\",\"context\":%d,\"fn\":\"%s\",\"sig\":\"%s\",\"scalar\":\"ld\",\"tuple\":%d,\"value\":\"%.21Lg\",\"printed_error\":%s", sol.c_str(), ctx, e.name, e.sig, t, vals_l[t], msgl ? "true" : "false"); viol("C15", sol + " [context " + std::to_string(ctx) + "]: masa_eval_" + e.name + "<long double>(" + e.sig + ") is not provided but " + (okl ? "printed no MASA ERROR line" : "returned a value other than -1.33"), b); }
         }
       }
       std::string snap1 = snapshot_params(); va++;
       if (snap1 != snap0) viol("C15", sol + ": parameters changed while calling unprovided evaluators", "\"solution\":\"" + sol + "\"");
-      fprintf(OUT, "{\"k\":\"c15sol\",\"solution\":\"%s\",\"unprovided_pairs\":%ld,\"calls\":%ld,\"validated\":%ld}\n", sol.c_str(), st, tr, va);
+      fprintf(OUT, "{\"k\":\"c15sol\",\"context\":%d,\"solution\":\"%s\",\"unprovided_pairs\":%ld,\"calls\":%ld,\"validated\":%ld}\n", ctx, sol.c_str(), st, tr, va);
       fflush(OUT); _exit(0);
     }
     int stt; waitpid(pid, &stt, 0);
@@ -198,39 +205,73 @@ static int mode_c14(const Caps& D, const Caps& P) {
     if (!seen.insert(n).second) viol("C14", "catalogue name listed twice: " + n, "\"name\":\"" + jesc(n) + "\"");
     std::string t = n; MASA::masa_map(&t); if (t != n || ref_normal(n) != n) viol("C14", "catalogue name is not its own normal form: " + n, "\"name\":\"" + jesc(n) + "\"");
     n_valid += 2;
+    bool fixture = (n == "masa_test_function" || n == "masa_uninit");
     for (int ld = 0; ld < 2; ld++) {
-      fflush(OUT);
-      pid_t pid = fork();
-      if (pid == 0) {
-        std::string nm; int dim = -99, san = -99, ip = -99;
-        capture([&] { if (ld) { masa_init<LD>("h", n); masa_get_name<LD>(&nm); masa_get_dimension<LD>(&dim); san = masa_sanity_check<LD>(); ip = masa_init_param<LD>(); }
-                      else { masa_init<double>("h", n); masa_get_name<double>(&nm); masa_get_dimension<double>(&dim); san = masa_sanity_check<double>(); ip = masa_init_param<double>(); } });
-        long tr = 5, va = 1;
-        if (nm != n) viol("C14", "masa_init(\"" + n + "\") then masa_get_name returns \"" + nm + "\"", "\"name\":\"" + jesc(n) + "\",\"got\":\"" + jesc(nm) + "\"");
-        bool fixture = (n == "masa_test_function" || n == "masa_uninit");
-        if (!fixture) {
-          va += 2;
-          if (san != 0 || ip != 0) viol("C14", n + ": sanity_check=" + std::to_string(san) + " init_param=" + std::to_string(ip) + " right after masa_init (expected 0,0)", "\"name\":\"" + n + "\",\"scalar\":\"" + (ld ? "ld" : "d") + "\"");
-          if (P.dim.count(n)) { va++; if (dim != P.dim.at(n)) viol("C14", n + ": masa_get_dimension=" + std::to_string(dim) + ", expected " + std::to_string(P.dim.at(n)), "\"name\":\"" + n + "\""); }
-          else fprintf(OUT, "{\"k\":\"uncovered\",\"what\":\"solution %s is not in spec/capabilities.tsv (dimension and evaluator set not checked)\"}\n", n.c_str());
-          if (P.D.count(n)) for (auto& key : P.D.at(n)) {
-            size_t sl = key.find('/'); std::string fn = key.substr(0, sl), sig = key.substr(sl + 1);
-            const ApiEntry* e = api_find(fn.c_str(), sig.c_str());
-            if (!e) { viol("C14", n + ": documented evaluator masa_eval_" + fn + "(" + sig + ") no longer exists in masa.h", "\"name\":\"" + n + "\",\"fn\":\"" + fn + "\",\"sig\":\"" + sig + "\""); continue; }
-            va++;
-            if (!D.D.count(n) || !D.D.at(n).count(key)) { viol("C14", n + ": evaluator masa_eval_" + fn + "(" + sig + ") is documented for this solution but no longer overrides the base-class stub", "\"name\":\"" + n + "\",\"fn\":\"" + fn + "\",\"sig\":\"" + sig + "\""); continue; }
-            ApiArgs A = args_tuple(0); LD v = 0; std::string o = capture([&] { v = ld ? e->cl(A) : (LD)e->cd(A); }); tr++; va++;
-            if (!(v == v) || std::isinf(v) || v == (LD)-1.33 || o.find("MASA ERROR") != std::string::npos) {
-              char b[400]; snprintf(b, sizeof b, "\"name\":\"%s\",\"fn\":\"%s\",\"sig\":\"%s\",\"scalar\":\"%s\",\"value\":\"%.21Lg\"", n.c_str(), fn.c_str(), sig.c_str(), ld ? "ld" : "d", v);
-              viol("C14", n + ": masa_eval_" + fn + "(" + sig + ") at an interior point with default parameters is not a finite non-sentinel value", b);
+      // masa_init is entered from several registry states ("contexts"); what it leaves behind must not depend on the context:
+      // the complete observation (name, dimension, sanity, every parameter and vector, every documented evaluator, init_param)
+      // is compared bit for bit with the one of context 0 (empty registry)
+      std::string obs0;
+      for (int ctx = 0; ctx < (fixture ? 1 : 7); ctx++) {
+        fflush(OUT);
+        int pfd[2]; if (pipe(pfd)) { perror("pipe"); exit(2); }
+        pid_t pid = fork();
+        if (pid == 0) {
+          close(pfd[0]);
+          std::string nm; int dim = -99, san = -99, ip = -99; std::string obs; long tr = 5, va = 1;
+          std::string other = (n == "euler_1d") ? "laplace_2d" : "euler_1d";
+          auto body = [&](auto tag) { typedef decltype(tag) S;
+            auto dirty = [&] { std::string o = capture([] { masa_display_param<S>(); }); std::istringstream ps(o); std::string line; while (std::getline(ps, line)) { size_t q = line.find(" is set to:"); if (q != std::string::npos) masa_set_param<S>(line.substr(0, q), (S)1.5); } };
+            capture([&] {
+              switch (ctx) {
+                case 0: break;
+                case 1: masa_init<S>("h", n); masa_purge_default_param<S>(); break;
+                case 2: masa_init<S>("h", n); masa_purge_default_param<S>(); masa_init<S>("other", other); masa_select_mms<S>("h"); break;
+                case 3: masa_init<S>("h", other); break;
+                case 4: masa_init<S>("h", n); dirty(); masa_init<S>("other", n); masa_select_mms<S>("other"); masa_select_mms<S>("h"); break;
+                case 5: masa_init<S>("other", n); masa_purge_default_param<S>(); break;
+                case 6: masa_init<S>("h", n); dirty(); masa_init<S>("other", other); masa_select_mms<S>("h"); masa_init<S>("other", n); masa_select_mms<S>("h"); break;
+              }
+              masa_init<S>("h", n); masa_get_name<S>(&nm); masa_get_dimension<S>(&dim); if (!fixture) san = masa_sanity_check<S>(); });
+            tr += ctx ? 4 : 0;
+            obs = nm + ";" + std::to_string(dim) + ";" + std::to_string(san) + ";";
+            { std::string o = capture([] { masa_display_param<S>(); }); std::istringstream ps(o); std::string line; while (std::getline(ps, line)) { size_t q = line.find(" is set to:"); if (q != std::string::npos) { S v = masa_get_param<S>(line.substr(0, q)); obs += line.substr(0, q) + "="; char hb[64]; snprintf(hb, sizeof hb, "%La,", (LD)v); obs += hb; } } }
+            { std::string o = capture([] { masa_display_vec<S>(); }); std::istringstream ps(o); std::string line; while (std::getline(ps, line)) { size_t q = line.find(" is size: "); if (q != std::string::npos) { std::vector<S> v; masa_get_vec<S>(line.substr(0, q), v); obs += line.substr(0, q) + "=["; for (S x : v) { char hb[64]; snprintf(hb, sizeof hb, "%La,", (LD)x); obs += hb; } obs += "]"; } } }
+          };
+          if (ld) body((LD)0); else body((double)0);
+          if (nm != n) viol("C14", "masa_init(\"" + n + "\") [context " + std::to_string(ctx) + "] then masa_get_name returns \"" + nm + "\"", "\"name\":\"" + jesc(n) + "\",\"context\":" + std::to_string(ctx) + ",\"got\":\"" + jesc(nm) + "\"");
+          if (!fixture) {
+            va += 2;
+            if (P.dim.count(n)) { va++; if (dim != P.dim.at(n)) viol("C14", n + ": masa_get_dimension=" + std::to_string(dim) + ", expected " + std::to_string(P.dim.at(n)), "\"name\":\"" + n + "\",\"context\":" + std::to_string(ctx)); }
+            else if (ctx == 0) fprintf(OUT, "{\"k\":\"uncovered\",\"what\":\"solution %s is not in spec/capabilities.tsv (dimension and evaluator set not checked)\"}\n", n.c_str());
+            if (P.D.count(n)) for (auto& key : P.D.at(n)) {
+              size_t sl = key.find('/'); std::string fn = key.substr(0, sl), sig = key.substr(sl + 1);
+              const ApiEntry* e = api_find(fn.c_str(), sig.c_str());
+              if (!e) { if (ctx == 0) viol("C14", n + ": documented evaluator masa_eval_" + fn + "(" + sig + ") no longer exists in masa.h", "\"name\":\"" + n + "\",\"fn\":\"" + fn + "\",\"sig\":\"" + sig + "\""); continue; }
+              va++;
+              if (!D.D.count(n) || !D.D.at(n).count(key)) { if (ctx == 0) viol("C14", n + ": evaluator masa_eval_" + fn + "(" + sig + ") is documented for this solution but no longer overrides the base-class stub", "\"name\":\"" + n + "\",\"fn\":\"" + fn + "\",\"sig\":\"" + sig + "\""); continue; }
+              ApiArgs A = args_tuple(0); LD v = 0; std::string o = capture([&] { v = ld ? e->cl(A) : (LD)e->cd(A); }); tr++; va++;
+              { char hb[64]; snprintf(hb, sizeof hb, "%La", v); obs += key + "->" + hb + ";"; }
+              if (!(v == v) || std::isinf(v) || v == (LD)-1.33 || o.find("MASA ERROR") != std::string::npos) {
+                char bb[400]; snprintf(bb, sizeof bb, "\"name\":\"%s\",\"context\":%d,\"fn\":\"%s\",\"sig\":\"%s\",\"scalar\":\"%s\",\"value\":\"%.21Lg\"", n.c_str(), ctx, fn.c_str(), sig.c_str(), ld ? "ld" : "d", v);
+                viol("C14", n + " [context " + std::to_string(ctx) + "]: masa_eval_" + fn + "(" + sig + ") at an interior point with default parameters is not a finite non-sentinel value", bb);
+              }
             }
+            capture([&] { ip = ld ? masa_init_param<LD>() : masa_init_param<double>(); });
+            obs += "init_param=" + std::to_string(ip);
+            if (san != 0 || ip != 0) viol("C14", n + " [context " + std::to_string(ctx) + "]: sanity_check=" + std::to_string(san) + " init_param=" + std::to_string(ip) + " right after masa_init (expected 0,0)", "\"name\":\"" + n + "\",\"context\":" + std::to_string(ctx) + ",\"scalar\":\"" + (ld ? "ld" : "d") + "\"");
           }
+          fprintf(OUT, "{\"k\":\"c14sol\",\"solution\":\"%s\",\"scalar\":\"%s\",\"context\":%d,\"calls\":%ld,\"validated\":%ld,\"dim\":%d}\n", n.c_str(), ld ? "ld" : "d", ctx, tr, va + (ctx ? 1 : 0), dim);
+          fflush(OUT); ssize_t w = write(pfd[1], obs.data(), obs.size()); (void)w; _exit(0);
         }
-        fprintf(OUT, "{\"k\":\"c14sol\",\"solution\":\"%s\",\"scalar\":\"%s\",\"calls\":%ld,\"validated\":%ld,\"dim\":%d}\n", n.c_str(), ld ? "ld" : "d", tr, va, dim);
-        fflush(OUT); _exit(0);
+        close(pfd[1]); std::string obs; char rb[65536]; ssize_t nr; while ((nr = read(pfd[0], rb, sizeof rb)) > 0) obs.append(rb, nr); close(pfd[0]);
+        int st; waitpid(pid, &st, 0);
+        if (!WIFEXITED(st) || WEXITSTATUS(st) != 0) { viol("C14", n + ": process terminated during init/inspection in context " + std::to_string(ctx) + " (wait status " + std::to_string(st) + ")", "\"name\":\"" + n + "\",\"context\":" + std::to_string(ctx)); continue; }
+        if (ctx == 0) obs0 = obs;
+        else if (obs != obs0) {
+          size_t k = 0; while (k < obs.size() && k < obs0.size() && obs[k] == obs0[k]) k++; size_t a0 = k > 40 ? k - 40 : 0;
+          viol("C14", n + " (" + (ld ? "ld" : "d") + "): what masa_init leaves behind depends on the registry state it is entered from (context " + std::to_string(ctx) + "): ..." + obs.substr(a0, 120) + "... instead of ..." + obs0.substr(a0, 120) + "...", "\"name\":\"" + n + "\",\"context\":" + std::to_string(ctx) + ",\"scalar\":\"" + (ld ? "ld" : "d") + "\"");
+        }
       }
-      int st; waitpid(pid, &st, 0);
-      if (!WIFEXITED(st) || WEXITSTATUS(st) != 0) viol("C14", n + ": process terminated during init/inspection (wait status " + std::to_string(st) + ")", "\"name\":\"" + n + "\"");
     }
   }
   for (auto& kv : P.D) if (!seen.count(kv.first)) viol("C14", "solution " + kv.first + " of the pinned catalogue is no longer listed by masa_printid", "\"name\":\"" + kv.first + "\"");
